@@ -40,6 +40,7 @@ type iterKind struct {
 	isMap     bool
 	bad       bool // non-iterable: the loop must be an error
 	empty     bool // nil-like: renders nothing
+	hasNil    bool // some elements are nil
 	build     func(n int) (modelVal, plushVal interface{})
 	expr      func(n int) model.Expr // nil: the iterable is the variable xs
 }
@@ -129,6 +130,40 @@ var iterKinds = []iterKind{
 		}
 		return om, m
 	}},
+	// collections holding nil: the loop variable is bound to nil for that element (and hides an outer variable of its name)
+	{name: "[]interface{} with nil elements", elem: "int", key: "int", hasNil: true, build: func(n int) (interface{}, interface{}) {
+		a, b := ints(n), ints(n)
+		for i := range a {
+			if i%2 == 1 {
+				a[i], b[i] = nil, nil
+			}
+		}
+		return a, b
+	}},
+	{name: "map[string]interface{} with nil values", elem: "int", key: "string", isMap: true, hasNil: true, build: func(n int) (interface{}, interface{}) {
+		om := &model.OrderedMap{Vals: map[interface{}]interface{}{}}
+		m := map[string]interface{}{}
+		for i := 0; i < n; i++ {
+			k := fmt.Sprintf("k%d", i)
+			om.Keys = append(om.Keys, k)
+			var v interface{}
+			if i%2 == 0 {
+				v = (i + 1) * 10
+			}
+			om.Vals[k], m[k] = v, v
+		}
+		return om, m
+	}},
+	{name: "array literal with nil", elem: "int", key: "int", hasNil: true, expr: func(n int) model.Expr {
+		var els []model.Expr
+		for i, v := range ints(n) {
+			if i%2 == 0 {
+				v = nil
+			}
+			els = append(els, model.Lit{V: v})
+		}
+		return model.Arr{Els: els}
+	}},
 	{name: "custom Iterator", elem: "int", key: "int", build: func(n int) (interface{}, interface{}) { return &countIter{n: n}, &countIter{n: n} }},
 	{name: "range(1,n)", elem: "int", key: "int", expr: func(n int) model.Expr {
 		return model.Call{Fn: "range", Args: []model.Expr{model.Lit{V: 1}, model.Lit{V: n}}}
@@ -186,8 +221,9 @@ func run(r *vk.Run, kind, n int, prog []model.Node) *vk.Fail {
 	fail := func(f string, a ...interface{}) *vk.Fail {
 		return &vk.Fail{Kind: "loop", Case: c, Msg: fmt.Sprintf("iterable %s (n=%d): %s: ", ik.name, n, src) + fmt.Sprintf(f, a...)}
 	}
-	mdata := map[string]interface{}{"ys": []interface{}{1, 2}}
-	pdata := map[string]interface{}{"ys": []interface{}{1, 2}}
+	// v, k and w are ALSO top-level variables: a loop variable hides them, also while it is bound to nil
+	mdata := map[string]interface{}{"ys": []interface{}{1, 2}, "v": "outer-v", "k": "outer-k", "w": "outer-w"}
+	pdata := map[string]interface{}{"ys": []interface{}{1, 2}, "v": "outer-v", "k": "outer-k", "w": "outer-w"}
 	if ik.build != nil {
 		mv, _ := ik.build(n)
 		_, pv := ik.build(n)
@@ -198,6 +234,12 @@ func run(r *vk.Run, kind, n int, prog []model.Node) *vk.Fail {
 	res := vk.Safe(func() (string, error) { return plush.Render(src, ctx) })
 	if res.Panicked() {
 		return fail("%s", res)
+	}
+	if ik.isMap && ik.hasNil && res.Err != nil {
+		// the visiting order cannot be read off a failed render, and with nil values the outcome depends on it
+		// (an entry whose value is nil may fail the body; a break at an earlier entry hides it)
+		r.Exclude("map with nil values: render failed, visiting order unknown")
+		return nil
 	}
 	if ik.isMap && res.Err == nil {
 		// read the visiting order off the output and run the model in that order
@@ -442,6 +484,22 @@ func fixedBodies(ik iterKind) [][]model.Node {
 		return model.EmitFor{For: &model.For{Val: "w", Iter: model.Var{Name: "ys"}, Body: ns}}
 	}
 	fnlit := model.Code{S: model.LetS{Name: "f", X: model.FnLit{Body: []model.Node{T("F")}}}}
+	if ik.hasNil {
+		isNil := model.Bin{Op: "==", L: model.Var{Name: "v"}, R: model.Lit{V: nil}}
+		show := model.EmitIf{If: &model.If{Cond: isNil, Then: []model.Node{T("nil")}, HasElse: true, Else: []model.Node{v}}}
+		return [][]model.Node{
+			{T("["), show, T("]")},
+			{k, T("="), show, T(",")},
+			{sif(isNil, cnt), v, T(",")},
+			{sif(isNil, brk), v, T(",")},
+			{T("a"), eif(model.Not{X: model.Var{Name: "v"}}, T("falsy")), T("b")},
+			{T("a"), eif(model.Var{Name: "v"}, v), T("b")},
+			{v, T(",")}, // emitting the nil-bound variable: the same outcome as any unset name, never the outer variable
+			// an inner loop over the same collection under the same names; the outer element is tested again afterwards
+			{model.EmitFor{For: &model.For{Val: "v", Iter: model.Var{Name: "ys"}, Body: []model.Node{T("i")}}}, show, T(",")},
+			{inner(show), T("|"), show, T(",")},
+		}
+	}
 	return [][]model.Node{
 		{},
 		{T("a")},
@@ -471,7 +529,7 @@ func fixedBodies(ik iterKind) [][]model.Node {
 	}
 }
 
-const rule = "iterables: []int, []string, []interface{}, [N]int, *[]int, *[N]string, array literal, map[string]int, map[int]string, map[string]interface{}, custom Iterator, range/between/until, literal nil, helper returning nil, and five non-iterables, each with 0..5 elements (thorough 0..6). (E) every iterable x length x 24 fixed bodies (break/continue at the start, middle and end of the body, inside a silent if, inside an emitting if after text, two ifs deep, in an else branch, unconditional with dead code after, in an inner loop only, AFTER a nested loop, after a function literal; inner loops that REUSE the outer loop's variable names with the outer values read again afterwards) x one-/two-variable form. (R) random bodies from the same grammar nested to depth 2. Oracle: the reference interpreter (body once per element in index order, key = index / map key / running count, continue/break keep what the iteration produced, nil renders nothing, non-iterable is an error). For maps each iteration starts with a key marker; the visiting order is read off the output, checked duplicate-free over the key set, and the model is run in that order. Non-trivial = the body has a control statement or a nested loop, or the iterable is a map / pointer / iterator / nil / non-iterable; distinct by (iterable, length, template)."
+const rule = "iterables: []int, []string, []interface{}, [N]int, *[]int, *[N]string, array literal, map[string]int, map[int]string, map[string]interface{}, custom Iterator, range/between/until, []interface{} / map[string]interface{} / array literals holding nil elements (the loop variable is then bound to nil and still hides the top-level variables v, k, w that every case defines), literal nil, helper returning nil, and five non-iterables, each with 0..5 elements (thorough 0..6). (E) every iterable x length x 24 fixed bodies (break/continue at the start, middle and end of the body, inside a silent if, inside an emitting if after text, two ifs deep, in an else branch, unconditional with dead code after, in an inner loop only, AFTER a nested loop, after a function literal; inner loops that REUSE the outer loop's variable names with the outer values read again afterwards) x one-/two-variable form. (R) random bodies from the same grammar nested to depth 2. Oracle: the reference interpreter (body once per element in index order, key = index / map key / running count, continue/break keep what the iteration produced, nil renders nothing, non-iterable is an error). For maps each iteration starts with a key marker; the visiting order is read off the output, checked duplicate-free over the key set, and the model is run in that order. Non-trivial = the body has a control statement or a nested loop, or the iterable is a map / pointer / iterator / nil / non-iterable; distinct by (iterable, length, template)."
 
 func setup(t *testing.T) *vk.Run {
 	r := vk.Start(t, "C08", rule,
@@ -533,7 +591,7 @@ func TestProp(t *testing.T) {
 			}
 		}
 	}
-	r.Subspace(fmt.Sprintf("%d iterable kinds x lengths 0..%d x 24 fixed bodies x one/two loop variables", len(iterKinds), maxN), cells, true)
+	r.Subspace(fmt.Sprintf("%d iterable kinds x lengths 0..%d x 24 fixed bodies (9 nil-tolerant ones for collections holding nil) x one/two loop variables", len(iterKinds), maxN), cells, true)
 
 	r.Rapid("bodies", r.Pick(6000, 80000), func(t *rapid.T) *vk.Fail {
 		kind := rapid.IntRange(0, len(iterKinds)-1).Draw(t, "iterable")
